@@ -108,14 +108,23 @@ def c04_4(c: Ctx) -> None:
     u = await_coro(c)
     g = c.cfg(u)
     br = inline_branch(c, u)
-    loops = [n for n in own_nodes(u.node) if isinstance(n, (ast.For, ast.AsyncFor)) and 'all_instances' in U(n.iter) and q.lexically_in(n, br, 'body')]
+    def iter_text(n) -> str:
+        # `for bus in buses` where `buses = list(EventBus.all_instances)` is (re)bound on the same round (e.g. the argument of a folded helper)
+        if isinstance(n.iter, ast.Name):
+            defs = [d for d in own_nodes(u.node) if isinstance(d, ast.Assign) and len(d.targets) == 1 and isinstance(d.targets[0], ast.Name) and d.targets[0].id == n.iter.id]
+            if len(defs) == 1 and q.block_of(defs[0]) is not None and any(n is x or q.lexically_in(n, x) for x in q.block_of(defs[0])[q.block_of(defs[0]).index(defs[0]) + 1:]) \
+                    and all(isinstance(a, (ast.While, ast.For)) is False or q.lexically_in(defs[0], a) for a in q.ancestors_of(n) if q.lexically_in(a, br, 'body')):
+                return U(defs[0].value)
+        return U(n.iter)
+
+    loops = [n for n in own_nodes(u.node) if isinstance(n, (ast.For, ast.AsyncFor)) and 'all_instances' in iter_text(n) and q.lexically_in(n, br, 'body')]
     if len(loops) != 1 or not isinstance(loops[0].target, ast.Name):
         c.fail(u, f'{len(loops)} loops over EventBus.all_instances on the inline branch', 'the in-handler await does not look at every bus: a child dispatched to another bus can never be completed while the handler waits (deadlock / pending child)')
         return
     loop = loops[0]
     bus = loop.target.id
-    if U(loop.iter) not in ('list(EventBus.all_instances)', 'EventBus.all_instances', 'tuple(EventBus.all_instances)'):
-        c.fail(u, f'bus loop iterates {U(loop.iter)[:60]}', 'the in-handler await drains only a subset of the buses', node=loop)
+    if iter_text(loop) not in ('list(EventBus.all_instances)', 'EventBus.all_instances', 'tuple(EventBus.all_instances)'):
+        c.fail(u, f'bus loop iterates {iter_text(loop)[:60]}', 'the in-handler await drains only a subset of the buses', node=loop)
     head = g.nodes_of(loop, ('for',))[0]
     attempts = [n for n in g.live_nodes() if n.kind == 'if' and f'{bus}.event_queue.qsize()' in U(n.ast.test)] or [n for n in g.live_nodes() if q.node_calls(n, 'get_nowait')]
     c.floor(len(attempts), 1, 'dequeue attempt in the bus loop')
